@@ -8,6 +8,7 @@ package main
 import (
 	"fmt"
 	"go/types"
+	"os"
 )
 
 func regIfAbsent(name string, f intrinsic) {
@@ -93,4 +94,95 @@ func init() {
 		}
 		return "invalid URL escape \"<symbolic>\""
 	})
+}
+
+func init() {
+	// (uuid.UUID).String(): "%08x-%04x-%04x-%04x-%012x" over byte slices.
+	regIfAbsent("(github.com/docker/distribution/uuid.UUID).String", func(m *Machine, fr *frame, a []Value) Value {
+		u, ok := a[0].(Array)
+		if !ok || len(u) != 16 {
+			m.unsupported("uuid.UUID.String on %T", a[0])
+		}
+		b := make([]byte, 16)
+		for i, x := range u {
+			c, ok := x.(uint64)
+			if !ok {
+				m.unsupported("uuid.UUID.String on symbolic bytes")
+			}
+			b[i] = byte(c)
+		}
+		return fmt.Sprintf("%08x-%04x-%04x-%04x-%012x", b[:4], b[4:6], b[6:8], b[8:10], b[10:])
+	})
+}
+
+func init() {
+	// crypto.Hash.New looks the constructor up in a table filled by the hash
+	// packages' init functions, which are not run; only SHA256 (core.Digester)
+	// is mapped to the sha256 model.
+	regIfAbsent("(crypto.Hash).New", func(m *Machine, fr *frame, a []Value) Value {
+		h, ok := a[0].(uint64)
+		if !ok || h != 5 {
+			m.unsupported("crypto.Hash(%v).New: only SHA256 is modelled", a[0])
+		}
+		return intrinsics["crypto/sha256.New"](m, fr, nil)
+	})
+	regIfAbsent("(crypto.Hash).Available", func(m *Machine, fr *frame, a []Value) Value {
+		h, ok := a[0].(uint64)
+		return ok && h == 5
+	})
+}
+
+// whyLog (KSE_WHY=1): print the reason of every fresh branch decision to
+// stderr, for finding the source of decision-heavy paths.
+var whyLog func(m *Machine, why string)
+
+func init() {
+	if os.Getenv("KSE_WHY") != "" {
+		whyLog = func(m *Machine, why string) {
+			fn := ""
+			if m.lastFn != nil {
+				fn = m.lastFn.String()
+			}
+			fmt.Fprintln(os.Stderr, "KSE_WHY", why, fn)
+		}
+	}
+}
+
+// termUB is a cheap syntactic upper bound of an unsigned bit-vector term; it
+// lets index bound checks such as hextable[b>>4] pass without a solver query.
+func termUB(t *Term) uint64 {
+	full := ^uint64(0)
+	if t.w > 0 && t.w < 64 {
+		full = (uint64(1) << uint(t.w)) - 1
+	}
+	if t.isConst() {
+		return t.val
+	}
+	switch t.op {
+	case "zero_extend":
+		return termUB(t.args[0])
+	case "extract":
+		return full
+	case "bvlshr":
+		if len(t.args) == 2 && t.args[1].isConst() && t.args[1].val < 64 {
+			return termUB(t.args[0]) >> t.args[1].val
+		}
+	case "bvand":
+		if len(t.args) == 2 {
+			a, b := termUB(t.args[0]), termUB(t.args[1])
+			if a < b {
+				return a
+			}
+			return b
+		}
+	case "ite":
+		if len(t.args) == 3 {
+			a, b := termUB(t.args[1]), termUB(t.args[2])
+			if a > b {
+				return a
+			}
+			return b
+		}
+	}
+	return full
 }
